@@ -253,10 +253,9 @@ fn c15_stun_v4_generic_cr() {
 //# props: C01 C15
 //# tier: quick
 //# encodes: proto::stun::repl, StunPacket::new, StunPacket::get_attributes, StunAttribute::from (TLV walk)
-//# bounds: Binding Request header (00 01) with symbolic transaction id, followed by an 8-byte region starting with an unknown attribute (type 0x8022); attribute length field and all value bytes symbolic
+//# bounds: Binding Request header (00 01) with symbolic transaction id, followed by an 8-byte region holding an unknown attribute (type 0x8022) that declares 8 value bytes (4 present); value bytes symbolic
 //# out: attribute regions longer than 8 bytes; regions whose first attribute type is not the listed one
-//# cover: answered
-//# cover: attribute length beyond the message
+//# cover: malformed region survived
 #[kani::proof]
 #[kani::unwind(36)]
 fn c01_stun_tlv_unknown_8() {
@@ -267,9 +266,9 @@ fn c01_stun_tlv_unknown_8() {
 //# props: C01 C15
 //# tier: quick
 //# encodes: proto::stun::repl, StunPacket::new, StunPacket::get_attributes, StunAttribute::from (TLV walk)
-//# bounds: Binding Request header (00 01) with symbolic transaction id, followed by an 8-byte region starting with a MAPPED-ADDRESS attribute (any family byte, value possibly too short); attribute length field and all value bytes symbolic
+//# bounds: Binding Request header (00 01) with symbolic transaction id, followed by an 8-byte region holding a MAPPED-ADDRESS attribute with a 4-byte value (any family byte: the address is missing); value bytes symbolic
 //# out: attribute regions longer than 8 bytes; regions whose first attribute type is not the listed one
-//# cover: attribute inside the message
+//# cover: malformed region survived
 #[kani::proof]
 #[kani::unwind(36)]
 fn c01_stun_tlv_mapped_8() {
@@ -280,9 +279,9 @@ fn c01_stun_tlv_mapped_8() {
 //# props: C01 C15
 //# tier: quick
 //# encodes: proto::stun::repl, StunPacket::new, StunPacket::get_attributes, StunAttribute::from (TLV walk)
-//# bounds: Binding Request header (00 01) with symbolic transaction id, followed by a 6-byte region starting with a CHANGE-REQUEST attribute (value truncated); attribute length field and all value bytes symbolic
+//# bounds: Binding Request header (00 01) with symbolic transaction id, followed by a 6-byte region holding a CHANGE-REQUEST attribute with a 2-byte value (flags word truncated); value bytes symbolic
 //# out: attribute regions longer than 8 bytes; regions whose first attribute type is not the listed one
-//# cover: attribute inside the message
+//# cover: malformed region survived
 #[kani::proof]
 #[kani::unwind(36)]
 fn c01_stun_tlv_change_6() {
@@ -293,9 +292,9 @@ fn c01_stun_tlv_change_6() {
 //# props: C01 C15
 //# tier: thorough
 //# encodes: proto::stun::repl, StunPacket::new, StunPacket::get_attributes, StunAttribute::from (TLV walk)
-//# bounds: Binding Request header (00 01) with symbolic transaction id, followed by a 5-byte region starting with an unknown attribute; attribute length field and all value bytes symbolic
+//# bounds: Binding Request header (00 01) with symbolic transaction id, followed by a 5-byte region holding an unknown attribute with a 1-byte value; value bytes symbolic
 //# out: attribute regions longer than 8 bytes; regions whose first attribute type is not the listed one
-//# cover: answered
+//# cover: malformed region survived
 #[kani::proof]
 #[kani::unwind(36)]
 fn c01_stun_tlv_unknown_5() {
